@@ -1,4 +1,5 @@
 import Bpmn.Driver.C01
+import Bpmn.Props.C12Nest
 /-! Driver for C12: a case holds two runs of one generated program — sub-process blocks wrapped in 1..3 levels of
 embedded sub-process, then (after the line `variant inline`) the same program with the content inlined. Each run is
 judged like a C01 run; in addition the two request histories must coincide answer by answer. -/
@@ -40,5 +41,60 @@ def check (_params : List String) (lines : List String) : CaseResult := Id.run d
     if fa != fb then
       r := { r with specs := s!"wrapped_final_differs_from_inline: wrapped [{fa}] inline [{fb}]" :: r.specs }
   return { r with nontrivial := hasSub && r.diffs.isEmpty && r.specs.isEmpty && !r.skipped }
+
+/-- the model's observations as the harness words them -/
+def obsWords (os : List Bpmn.Model.Engine.Obs) : List String :=
+  os.map (fun o => match o with
+    | .req n => s!"task {n}"
+    | .complete n => s!"complete {n}"
+    | .err c => s!"error {c}")
+
+/-- family c12nest: the real engine on the program `nestProc d` of `Props/C12Nest` (same element names). The model's three
+steps — start, answer T, answer C — at the extracted configuration, on the very object the theorems are about, against the
+recorded history: requests and completions of every step, in order; and the instance completes. -/
+def checkNest (params lines : List String) : CaseResult := Id.run do
+  let some d := (params.head?.bind String.toNat?) | return { bad := ["c12nest params"] }
+  if d == 0 then return { bad := ["c12nest depth 0"] }
+  let p := Bpmn.Props.C12Nest.nestProc d
+  let cfg := C01.faithful
+  let s0 := Bpmn.Model.Engine.start cfg p []
+  let s1 := Bpmn.Model.Engine.answer cfg p s0 "T" 1 (.ok [])
+  let s2 := Bpmn.Model.Engine.answer cfg p s1 "C" 1 (.ok [])
+  let model := [obsWords s0.obs, obsWords s1.obs, obsWords s2.obs]
+  -- the recorded history, cut at the harness's answers
+  let mut segs : List (List String) := []
+  let mut cur : List String := []
+  let mut done := ""
+  let mut bad : List String := []
+  for ln in lines do
+    match words ln with
+    | ["c12nest", "answer", _] => segs := segs ++ [cur]; cur := []
+    | ["c12nest", "done", b] => done := b
+    | "obs" :: "task" :: n :: _ => cur := cur ++ [s!"task {n}"]
+    | ["obs", "complete", n] => if n == "e" then cur := cur ++ [s!"complete {n}"]
+    -- (the completion trace of an INNER end event is emitted while the sub-process's relay is shutting down and may or may
+    -- not reach the instance's tracer; the token's arrival at the inner end event always does)
+    | ["obs", "visit", n] => if n.startsWith "E" then cur := cur ++ [s!"complete {n}"]
+    | "obs" :: "error" :: c :: _ => cur := cur ++ [s!"error {c}"]
+    | "obs" :: "norequest" :: rest => bad := bad ++ ["norequest " ++ " ".intercalate rest]
+    | ["obs", "noquiesce"] => bad := bad ++ ["noquiesce"]
+    | "harness-error" :: rest => bad := bad ++ ["harness-error " ++ " ".intercalate rest]
+    | _ => pure ()
+  segs := segs ++ [cur]
+  let mut r : CaseResult := {}
+  -- completions of start events and of the sub-process nodes themselves are not observations of the model
+  let keep (xs : List String) : List String :=
+    xs.filter (fun x => x.startsWith "task " || x.startsWith "error " || x.startsWith "complete E" || x == "complete e")
+  let impl := segs.map keep
+  if impl != model then
+    r := { r with diffs := [s!"nest depth {d}: engine {impl} model (nestProc {d}) {model}"] }
+  if !bad.isEmpty then
+    r := { r with specs := bad.map (fun b => s!"nest_stuck: depth {d}: {b}") }
+  if done != "1" && bad.isEmpty then
+    r := { r with specs := s!"nest_not_complete: depth {d}: both tasks answered, the instance does not complete" :: r.specs }
+  -- the model must itself say what the theorem says (a run-time echo of `nest_run`, not a proof)
+  if s2.topLive p || s0.outOfScope.isSome || s1.outOfScope.isSome || s2.outOfScope.isSome then
+    r := { r with specs := s!"nest_model_incomplete: depth {d}: the model's run of nestProc {d} does not complete" :: r.specs }
+  return { r with nontrivial := r.diffs.isEmpty && r.specs.isEmpty }
 
 end Bpmn.Driver.C12
